@@ -562,8 +562,16 @@ def check_with_execution_state(ctx, prog, tag):
     ctx.floor("C05.B4 fields replaced before the evaluation" + tag, nbefore, 2)
     if tag != "[MIN]" and prog.has_fn("minijinja::vm::context::Context::restore_stack_depth"):
         rsd = wes.calls_to("minijinja::vm::context::Context::restore_stack_depth")
-        okr = bool(rsd) and all(cfg.paths_must_pass(wes, fc.bb, [r.bb for r in rsd if fc.bb in doms.get(r.bb, ())], wes.returns())
-                                for fc in calls)
+        # the restore may be skipped only under the `None` of the saved depth itself (an isolated evaluation swapped the
+        # whole context): the other arms of the Option switch that guards a restore count as passing it
+        through = {r.bb for r in rsd}
+        for r in rsd:
+            for (sb, taken) in flow.guards(wes, r.bb):
+                cd = flow.cond_of(wes, sb)
+                if cd.kind == "discr" and (cd.adt or "").endswith("option::Option"):
+                    t_ = wes.term(sb)
+                    through |= {x for v, x in [(v, x) for v, x in t_["arms"]] + [("otherwise", t_["otherwise"])] if v not in taken}
+        okr = bool(rsd) and all(cfg.paths_must_pass(wes, fc.bb, through, wes.returns()) for fc in calls)
         ctx.ob("C05.B4.frames-pushed-by-nested-evaluation-are-dropped", tag + "with_execution_state", okr,
                "restore_stack_depth must follow the nested evaluation on every path from each call of it to a return: the "
                "frames a nested evaluation pushed (the scope of a block call) stay on the caller's stack otherwise", wes.loc)
